@@ -346,6 +346,53 @@ pub fn free_port() -> u16 {
     }
 }
 
+// ---------------------------------------------------------------------------------------------
+// every server process the harness starts is registered; whatever way the harness ends (normal
+// exit, machinery error, panic, SIGTERM/SIGINT from a timeout wrapper) the registered ones are killed
+
+static CHILD_PIDS: [std::sync::atomic::AtomicI32; 2048] = [const { std::sync::atomic::AtomicI32::new(0) }; 2048];
+
+fn register_child(pid: u32) {
+    for s in CHILD_PIDS.iter() {
+        if s.compare_exchange(0, pid as i32, std::sync::atomic::Ordering::SeqCst, std::sync::atomic::Ordering::SeqCst).is_ok() {
+            return;
+        }
+    }
+}
+
+fn unregister_child(pid: u32) {
+    for s in CHILD_PIDS.iter() {
+        if s.compare_exchange(pid as i32, 0, std::sync::atomic::Ordering::SeqCst, std::sync::atomic::Ordering::SeqCst).is_ok() {
+            return;
+        }
+    }
+}
+
+/// Async-signal-safe: only atomics and kill(2).
+pub fn kill_registered_children() {
+    for s in CHILD_PIDS.iter() {
+        let p = s.swap(0, std::sync::atomic::Ordering::SeqCst);
+        if p > 0 {
+            unsafe {
+                libc::kill(p, libc::SIGKILL);
+            }
+        }
+    }
+}
+
+extern "C" fn on_fatal_signal(_sig: libc::c_int) {
+    kill_registered_children();
+    unsafe { libc::_exit(2) }
+}
+
+pub fn install_child_reaper() {
+    unsafe {
+        libc::signal(libc::SIGTERM, on_fatal_signal as usize);
+        libc::signal(libc::SIGINT, on_fatal_signal as usize);
+        libc::signal(libc::SIGHUP, on_fatal_signal as usize);
+    }
+}
+
 pub struct ServerProc {
     pub child: Option<Child>,
     pub pid: u32,
@@ -379,6 +426,7 @@ impl ServerProc {
         cmd.stdin(Stdio::null()).stdout(out).stderr(err);
         let child = cmd.spawn().map_err(|e| format!("spawn server: {}", e))?;
         let pid = child.id();
+        register_child(pid);
         let port = w.get("port").and_then(|p| p.parse().ok()).unwrap_or(0);
         Ok(ServerProc { child: Some(child), pid, dir, port })
     }
@@ -395,6 +443,7 @@ impl ServerProc {
         cmd.stdin(Stdio::null()).stdout(out).stderr(err);
         let child = cmd.spawn().map_err(|e| format!("spawn server: {}", e))?;
         let pid = child.id();
+        register_child(pid);
         Ok(ServerProc { child: Some(child), pid, dir, port })
     }
     pub fn stdout(&self) -> String {
@@ -478,6 +527,7 @@ impl ServerProc {
             let _ = c.kill();
             let _ = c.wait();
         }
+        unregister_child(self.pid);
     }
 }
 
